@@ -518,8 +518,12 @@ func (c *simConn) Read(b []byte) (int, error) {
 	if e.armedReadFail > 0 {
 		e.armedReadFail--
 		e.stats["fault_read_error"]++
-		e.r.Logf("read: injected failure")
-		return 0, errInjRead
+		// what a connection reports is its own business (a socket closed by its
+		// owner, a deadline, EOF on a stream): the client must treat them alike
+		rerr := []error{errInjRead, &net.OpError{Op: "read", Net: "udp", Err: net.ErrClosed}, io.ErrClosedPipe, io.EOF,
+			&net.OpError{Op: "read", Net: "udp", Err: os.ErrDeadlineExceeded}}[e.r.Choose(5, "rerr-kind")]
+		e.r.Logf("read: injected failure (%v)", rerr)
+		return 0, rerr
 	}
 	e.r.Sim.BlockUntil("read", hsRead, func() bool {
 		if c.closed {
